@@ -1,8 +1,8 @@
 """Constants of the value decoder, re-read from /repo on every run (C06):
 LEN_GUARD / CAP_GUARD and the shape of guard_len / guard_cap (specialization/mod.rs), B of the B-tree reflection
 (specialization/btree.rs), the hashbrown group width and the inverted EMPTY/DELETED mask (specialization/hashbrown.rs),
-and the ORDER in which parse_vec_dequeue_inner clamps the capacity and reduces the head (the confirmed defect:
-`guard_cap` is applied before `head % cap`).  A pattern that is not found raises: broken tie."""
+and the ORDER in which parse_vec_dequeue_inner clamps the capacity and reduces the head (the defect repaired by
+6655f7c: `guard_cap` was applied to the capacity before `head % cap`; now the capacity that positions the ring is unclamped).  A pattern that is not found raises: broken tie."""
 import re
 
 def extract(read):
@@ -16,10 +16,12 @@ def extract(read):
         raise Exception("valGuards: guard_cap has changed shape")
     dq = m[m.index("fn parse_vec_dequeue_inner"):]
     dq = dq[:dq.index("pub fn parse_cell")]
-    i_guard = dq.find("guard_cap(extract_capacity(pcx, &val)? as i64) as usize")
     i_mod = dq.find("head % cap")
     if i_mod < 0: raise Exception("valGuards: `head % cap` not found in parse_vec_dequeue_inner")
-    clamp_before_mod = 0 <= i_guard < i_mod
+    i_cap = dq.find("let cap = ")
+    if not 0 <= i_cap < i_mod: raise Exception("valGuards: `let cap = ` not found before `head % cap` in parse_vec_dequeue_inner")
+    # any clamp of the capacity (guard_cap, min, CAP_GUARD) between its definition and the modulo
+    clamp_before_mod = re.search(r"guard_cap|CAP_GUARD|\.min\(", dq[i_cap:i_mod]) is not None
     b = read("src/debugger/variable/value/specialization/btree.rs")
     bb = re.search(r"^const B: usize = (\d+);", b, re.M)
     if not bb: raise Exception("valGuards: B not found")
